@@ -2628,6 +2628,42 @@ def c11j(F, R):
                 okp = False
         if okp:
             reachable = True
+    # where the report is limited to the beginning of a shared stretch, "begins" is existential: *some* predecessor belongs to fewer
+    # functions. Asked of *all* predecessors, a shared tail whose first instruction is also the head of a loop inside the tail (one
+    # predecessor is the shared back edge) begins nowhere and is never reported
+    from .facts import walk_expanded
+    quants = []
+    for pu in pushes:
+        for c, want in path_constraints(pm, pu):
+            for m in walk_expanded(c, lets):
+                if m.get("k") == "MethodCall" and m["name"] in ("any", "all") and m["args"] and any(y.get("k") == "MethodCall" and y["name"] in ("prevs", "iter_prevs") for y in walk(m["recv"], pats=False)) and not any(m is q_ for q_ in quants):
+                    quants.append(m)
+    for i_, m in enumerate(quants, 1):
+        cl = closure_like(F, m["args"][0]) or {}
+        ps = [b_["name"] for p_ in cl.get("params", []) for b_ in walk(p_) if b_.get("k") == "PBinding"]
+        b = peel(cl.get("body") or {})
+        while b.get("k") == "Block" and not b.get("stmts") and b.get("expr") is not None:
+            b = peel(b["expr"])
+        fewer = None
+        if len(ps) == 1 and b.get("k") == "Binary" and b["op"] in ("Lt", "Gt", "Ne", "Le", "Ge"):
+            def who(e):
+                roots = {y.get("res") for y in walk(e, pats=False) if y.get("k") == "Path" and y.get("res_kind") == "Local"}
+                fn = any(y.get("k") == "MethodCall" and y["name"] == "functions" for y in walk(e, pats=False))
+                return ("prev" if ps[0] in roots else "node") if fn else None
+            l, r = who(b["a"]), who(b["b"])
+            if (l, r, b["op"]) in (("prev", "node", "Lt"), ("node", "prev", "Gt"), ("prev", "node", "Ne"), ("node", "prev", "Ne")):
+                fewer = True
+            elif l and r:
+                fewer = False
+        key = f"begins|{i_}"
+        if fewer is None:
+            R.bad(key + "|unextractable", f"UNEXTRACTABLE: the test over the predecessors under which sharing is reported (`{ekey(m)[:70]}`)", loc(m))
+        elif not fewer:
+            R.bad(key, f"the shared stretch is said to begin where a predecessor does *not* belong to fewer functions (`{ekey(b)[:60]}`)", loc(m))
+        elif m["name"] == "all":
+            R.bad(key, "a shared stretch is said to begin only where *every* predecessor belongs to fewer functions: a shared tail that starts at the head of a loop (`fn_a: ..; j count` / `fn_b: ..` falling into `count: ..; bnez a0, count; ret`) has a shared predecessor - its own back edge - and is never reported", loc(m))
+        else:
+            R.ok(key, detail="a shared stretch begins where some predecessor belongs to fewer functions", where=loc(m))
     if reachable:
         R.ok("shared-non-entry", detail="a node in several functions is reported also when it is no function entry", where=loc(pushes[0]))
     else:
